@@ -489,11 +489,34 @@ def callee_is(func, *names):
     return False
 
 
+_DEF_RE = re.compile(r'^\{"rec":"body","def":"((?:[^"\\]|\\.)*)","kind":"(\w+)","root":"((?:[^"\\]|\\.)*)"')
+
+
+class _Lazy:
+    __slots__ = ("raw", "crate", "path", "root", "kind", "body", "test")
+
+    def __init__(self, raw, crate, path, root, kind, test):
+        self.raw = raw
+        self.crate = crate
+        self.path = path
+        self.root = root
+        self.kind = kind
+        self.body = None
+        self.test = test
+
+    def get(self):
+        if self.body is None:
+            self.body = Body(json.loads(self.raw), self.crate)
+        return self.body
+
+
 class Program:
+    """All bodies of the workspace; JSON of a body is parsed on first access."""
+
     def __init__(self, facts_dir, crates=None, include_tests=False):
         self.facts_dir = facts_dir
-        self.bodies = {}       # def path (raw) -> Body
-        self.by_path = {}      # stripped path -> [Body]
+        self.lazy = []         # _Lazy
+        self.by_path = {}      # stripped path -> [_Lazy]
         self.adts = {}         # def path -> record
         self.impls = []
         self.crates = {}
@@ -501,12 +524,18 @@ class Program:
             if not f.endswith(".jsonl"):
                 continue
             crate, kind = f.split(".")[0:2]
-            if crates is not None and crate not in crates:
-                continue
             if kind == "test" and not include_tests:
                 continue
             with open(os.path.join(facts_dir, f)) as fh:
                 for line in fh:
+                    m = _DEF_RE.match(line)
+                    if m:
+                        lz = _Lazy(line, crate, strip_generics(json.loads('"%s"' % m.group(1))),
+                                   strip_generics(json.loads('"%s"' % m.group(3))), m.group(2),
+                                   kind == "test")
+                        self.lazy.append(lz)
+                        self.by_path.setdefault(lz.path, []).append(lz)
+                        continue
                     r = json.loads(line)
                     rec = r["rec"]
                     if rec == "crate":
@@ -517,23 +546,43 @@ class Program:
                         r["crate"] = crate
                         self.impls.append(r)
                     elif rec == "body":
-                        b = Body(r, crate)
-                        key = b.def_path if kind != "test" else b.def_path + "@test"
-                        self.bodies[key] = b
-                        self.by_path.setdefault(b.path, []).append(b)
+                        raise RuntimeError("body record not matched by the index regex")
 
     def body(self, path):
         """Unique body by stripped def path; None if absent; error if ambiguous."""
         bs = self.by_path.get(path, [])
         if len(bs) == 1:
-            return bs[0]
+            return bs[0].get()
         if not bs:
             return None
         raise KeyError("ambiguous body path %s (%d)" % (path, len(bs)))
 
+    def bodies_at(self, path):
+        return [lz.get() for lz in self.by_path.get(path, [])]
+
+    def all_bodies(self, contains=None, root=None, crate=None, kind=None):
+        """Parsed bodies; `contains`: only bodies whose serialised MIR mentions one of
+        the given substrings (cheap pre-filter for who-may scans)."""
+        if isinstance(contains, str):
+            contains = (contains,)
+        for lz in self.lazy:
+            if root is not None and lz.root != root:
+                continue
+            if crate is not None and lz.crate != crate:
+                continue
+            if kind is not None and lz.kind != kind:
+                continue
+            if contains is not None and lz.body is None and not any(c in lz.raw for c in contains):
+                continue
+            yield lz.get()
+
+    def paths(self):
+        return self.by_path.keys()
+
     def find(self, name=None, self_adt=None, trait=None, kind=None, crate=None, root_only=True):
         out = []
-        for b in self.bodies.values():
+        for b in self.all_bodies(crate=crate, kind=kind,
+                                 contains='"name":"%s"' % name if name else None):
             if root_only and b.path != b.root:
                 continue
             if name is not None and b.name != name:
@@ -542,17 +591,17 @@ class Program:
                 continue
             if trait is not None and b.impl_trait != trait:
                 continue
-            if kind is not None and b.kind != kind:
-                continue
-            if crate is not None and b.crate != crate:
-                continue
             out.append(b)
         return out
 
     def children(self, body):
-        """closures / coroutines nested (directly or not) in body's root."""
-        return [b for b in self.bodies.values() if b.root == body.root and b.path != body.path
-                and b.path.startswith(body.path)]
+        """closures / coroutines nested (directly or not) in body."""
+        return [lz.get() for lz in self.lazy
+                if lz.root == body.root and lz.path != body.path
+                and lz.path.startswith(body.path + "::")]
 
-    def all_bodies(self):
-        return self.bodies.values()
+    def adt_by_stripped(self, path):
+        for k, v in self.adts.items():
+            if strip_generics(k) == path:
+                return v
+        return None
